@@ -36,7 +36,8 @@ def byOnes (names : Term) : Term := Term.app "=**" [Term.app "dict.fromkeys" [na
 /-- **split as written**: the key columns alone, tagged with the original row numbers (`_index_`), sorted ascending by all
     keys (the stable sort of C03: rows of one key stay in original order), tagged with the sorted position; `unique` over the
     keys gives the FIRST sorted position of every distinct key combination (a missing value is a key of its own there); the
-    original row numbers, in sorted order, are cut at those positions (`np.split(..., starts[1:])`). -/
+    original row numbers, in sorted order (`sorted._index_`: the column READ BACK from the sorted frame, not the `arange`
+    that was stored before sorting), are cut at those positions (`np.split(..., starts[1:])`). -/
 theorem split_code (truth : Term → Bool) :
     DataFrame_split truth =
       let keys := Term.app ".select" [Term.sym "self", Term.app "*" [Term.sym "by"]]
@@ -45,7 +46,7 @@ theorem split_code (truth : Term → Bool) :
       let spos := Term.app "np.arange" [Term.app ".nrow" [sorted]]
       let starts := Term.app "._sorted_index_" [Term.app ".unique" [sorted, Term.app "*" [Term.sym "by"]]]
       Out.ret [Term.app "setattr" [keys, Term.sym "_index_", index], Term.app "setattr" [sorted, Term.sym "_sorted_index_", spos]]
-        (Term.app "np.split" [index, Term.app "getitem" [starts, Term.slice (some 1) none]]) := rfl
+        (Term.app "np.split" [Term.app "._index_" [sorted], Term.app "getitem" [starts, Term.slice (some 1) none]]) := rfl
 
 /-- **aggregate, the grouping part**: the frame sorted ascending by the group columns (`data`), its rows numbered, one
     summary row per distinct key combination = `data.unique(*group_colnames)` restricted to (`_index_`, the group columns) — so
